@@ -1374,7 +1374,7 @@ binary_search_wrapper_hash(InterrogateUniqueNameDef *begin,
   InterrogateUniqueNameDef *mid = begin + (end - begin) / 2;
   string name = mid->name;
   if (name < wrapper_hash_name) {
-    return binary_search_wrapper_hash(mid, end, wrapper_hash_name);
+    return binary_search_wrapper_hash(mid + 1, end, wrapper_hash_name);
 
   } else if (wrapper_hash_name < name) {
     return binary_search_wrapper_hash(begin, mid, wrapper_hash_name);
